@@ -25,6 +25,10 @@ CUSTOM_TEXT = {
     'cm': ('cm(r, A, rho)', 'A*exp(-r/rho)  // repulsion\n    - 3.0/r^6 # dispersion\n    + 0.5'),
     # assigns to its own parameters (a unit conversion in place): every evaluation starts from the values given in the file
     'conv': ('conv(r, D, a)', 'D := D*0.5; a := a + 0.1; D*exp(-a*r) + 1/r'),
+    # the formula language is case-insensitive: parameters, the separation and functions spelt in another case than in the signature
+    'cs': ('cs(r, A, rho, C)', 'a*Exp(-R/RHO) - C/R^6 + as.Buck(r, 10.0, Rho, 0.0)'),
+    # parameter names that happen to be Python keywords / builtins (they are ordinary variables of the formula language)
+    'yk': ('yk(r, A, lambda, del)', 'A*exp(-r/lambda)/r + del/r^2'),
     # block syntax of the formula language
     'br': ('br(r, A)', 'if (r > 1.0) { A*exp(-r); } else { A/exp(r); }'),
 }
@@ -66,6 +70,14 @@ def _c_br(r, A):
     return A * jexp(-r)
 
 
+def _c_cs(r, A, rho, C):
+    return A * jexp(-r / rho) - C / r.ipow(6) + F.buck(r, 10.0, rho, 0.0)
+
+
+def _c_yk(r, A, lam, de):
+    return A * jexp(-r / lam) / r + de / (r * r)
+
+
 def _c_wb(r, A):
     return F.buck(r, A, 0.3, 1.0) + F.morse(r, 1.8, 2.0, 0.1)
 
@@ -81,7 +93,7 @@ _env = None
 def env():
     global _env
     if _env is None:
-        _env = X.Env(custom={'mix': _c_mix, 'inner': _c_inner, 'qq': _c_qq, 'sf': _c_sf, 'inner2': _c_inner2, 'ms': _c_ms, 'wb': _c_wb, 'cm': _c_cm, 'conv': _c_conv, 'br': _c_br, 'py_abs': _py_abs, 'py_intfirst': _py_g, 'py_np0d': _py_f, 'py_np0d0': _py_f0, 'py_plain': _py_f, 'py_deriv': _py_f, 'py_both': _py_f},
+        _env = X.Env(custom={'mix': _c_mix, 'inner': _c_inner, 'qq': _c_qq, 'sf': _c_sf, 'inner2': _c_inner2, 'ms': _c_ms, 'wb': _c_wb, 'cm': _c_cm, 'conv': _c_conv, 'br': _c_br, 'cs': _c_cs, 'yk': _c_yk, 'py_abs': _py_abs, 'py_intfirst': _py_g, 'py_np0d': _py_f, 'py_np0d0': _py_f0, 'py_plain': _py_f, 'py_deriv': _py_f, 'py_both': _py_f},
                      tables={k: X.RefTable(*v) for k, v in TABLE_DATA.items()})
     return _env
 
@@ -145,6 +157,12 @@ def library():
         ('two_custom_ranges', D(('>', 0.0, {"custom": "qq", "params": [2, -1]}), ('>=', 1.55, {"custom": "inner", "params": [12.0]}), ('>=', 2.55, form('zero'))), {'numeric'}),
         ('custom_assign', D(mod('sum', {"custom": "conv", "params": [2.0, 0.7]}, {"custom": "conv", "params": [3.0, 0.7]})), {'numeric'}),
         ('custom_braces', D(('>', 0.0, {"custom": "br", "params": [2.0]})), {'numeric'}),
+        ('custom_case', D({"custom": "cs", "params": [800.0, 0.33, 12.0]}), {'numeric'}),
+        ('custom_keyword', D({"custom": "yk", "params": [500.0, 0.6, 1.5]}), {'numeric'}),
+        # modifiers whose operands are a formula (no analytic derivative) and a built-in form, both ways round; more than two operands of pow
+        ('pow_custom', D(mod('pow', {"custom": "ms", "params": [650.0, 0.35]}, form('constant', 2))), {'numeric'}),
+        ('pow_custom_rev', D(mod('pow', form('constant', 2), {"custom": "br", "params": [2.0]})), {'numeric'}),
+        ('pow4', D(mod('pow', form('polynomial', 1.5, 0.5), form('constant', 1.5), form('constant', 2), form('polynomial', 0.5, 0.05))), {'api'}),
         # hash(-1) == hash(-2) in CPython: parameter lists that differ only by -1 <-> -2 (formal charges of F and O) catch caches keyed by hash
         ('qq_m1', D({"custom": "qq", "params": [2, -1]}), {'numeric'}),
         ('qq_m2', D({"custom": "qq", "params": [2, -2]}), {'numeric'}),
@@ -352,6 +370,8 @@ def _err_item(it, r, e):
             tot += p
         return tot
     if m == 'pow':
+        if len(it['args']) > 2:
+            return err_scale({'ranges': [[None, None, {'mod': 'pow', 'args': [{'ranges': [[None, None, {'mod': 'pow', 'args': it['args'][:-1]}]]}, it['args'][-1]]}]]}, r, e)
         a, b = it['args']
         av, bv = X.ev_defn(a, r, e).v, X.ev_defn(b, r, e).v
         p = abs(av ** bv)
